@@ -39,7 +39,7 @@ def _world(t3_on):
     else:
         os.environ["CLEMATIS_T3_DENY"] = "1"
     cfg = W.make_cfg({"t1": {"decay": {"mode": "exp_floor", "rate": 0.6, "floor": 0.05}}, 
-                      "perf": {"enabled": True, "parallel": {"enabled": True, "agents": True, "max_workers": 2}}})
+                      "perf": {"enabled": True, "parallel": {"enabled": True, "agents": True, "max_workers": 2}}}, memo="c10w")
     idx = InMemoryIndex()
     for i, o in enumerate(["A", "B", "world"]):
         idx.add({"id": "e%d" % (i + 1), "owner": o, "text": TEXTS[i], "ts": W.EP_TS[i], "vec_full": list(_vecs()[i]), "aux": {"importance": 0.5}})
